@@ -115,10 +115,79 @@ def firstAssertV : List Xform → VView → Option Nat
 
 /-! ### channel views and dereference adaptors -/
 
-/-- `nth_channel_view(v, n)` of a memory-based view: the x-iterator is re-pointed at channel `n` of
-    pixel (0,0) (`chanOff n` memory units further: `n*sizeof(channel)` for interleaved pixels, the
-    distance between planes for planar ones), pixel and row steps are the source's -/
+/-- Spec form of a channel view of a memory-based view: every pixel `chanOff` memory units further
+    (the selected channel of the same source pixel), pixel and row steps and dimensions are the source's -/
 def nthChannel (chanOff : Int) (v : View) : View := { v with base := v.base + chanOff }
+
+/-- what the type of a basic source view says about its x-iterator (inputs of the `adjacent` predicate) -/
+structure ChanSrc where
+  isStep : Bool      -- iterator_is_step<x_iterator>
+  planar : Bool      -- is_planar<x_iterator>
+  nch : Int          -- num_channels<View>
+  chanSize : Int     -- sizeof(channel_t) in memory units
+  deriving Repr, DecidableEq, Inhabited
+
+/-- arguments a channel-view factory passes on -/
+structure ChanArgs where
+  ox : Int
+  oy : Int
+  ch : Int
+  xstep : Int
+  ystep : Int
+  dw : Int
+  dh : Int
+  deriving Repr, DecidableEq, Inhabited
+
+def ChanArgs.ofTuple (t : Int × Int × Int × Int × Int × Int × Int) : ChanArgs :=
+  ⟨t.1, t.2.1, t.2.2.1, t.2.2.2.1, t.2.2.2.2.1, t.2.2.2.2.2.1, t.2.2.2.2.2.2⟩
+
+def b2i (b : Bool) : Int := if b then 1 else 0
+
+/-- the generated `adjacent` predicate and `make` body of `__nth_channel_view` (`kth = false`, run-time index `n`)
+    or `__kth_channel_view<K>` (`kth = true`, compile-time index `n`) for a source of type facts `t` -/
+def chanArgs (kth : Bool) (t : ChanSrc) (n : Int) (v : View) : ChanArgs :=
+  .ofTuple <|
+    if kth then
+      if kth_channel_is_adjacent (b2i t.isStep) (b2i t.planar) t.nch ≠ 0
+      then kth_channel_adjacent 0 n v.xs v.ys t.chanSize v.w v.h 0 0 0 0 0 0 0
+      else kth_channel_stepped 0 n v.xs v.ys t.chanSize v.w v.h 0 0 0 0 0 0 0
+    else
+      if nth_channel_is_adjacent (b2i t.isStep) (b2i t.planar) t.nch ≠ 0
+      then nth_channel_adjacent n 0 v.xs v.ys t.chanSize v.w v.h 0 0 0 0 0 0 0
+      else nth_channel_stepped n 0 v.xs v.ys t.chanSize v.w v.h 0 0 0 0 0 0 0
+
+/-- **channel views of basic views** as `make` builds them: the new x-iterator points at channel `ch`
+    of pixel `(ox,oy)` -- `chanAddr ch` memory units after that pixel's (plane-0) address: `ch * sizeof(channel)`
+    inside an interleaved pixel, the distance to plane `ch` for a planar one -- with the generated steps and dimensions -/
+def chanViewMem (kth : Bool) (t : ChanSrc) (chanAddr : Int → Int) (n : Int) (v : View) : View :=
+  let a := chanArgs kth t n v
+  { base := v.base + loc_offset a.ox a.oy v.ys v.xs + chanAddr a.ch, xs := a.xstep, ys := a.ystep, w := a.dw, h := a.dh }
+
+/-- type facts of the channel view: single channel, interleaved; a step view unless the channels were adjacent -/
+def chanViewSrc (kth : Bool) (t : ChanSrc) : ChanSrc :=
+  let adj := (if kth then kth_channel_is_adjacent else nth_channel_is_adjacent) (b2i t.isStep) (b2i t.planar) t.nch ≠ 0
+  { isStep := !adj, planar := false, nch := 1, chanSize := t.chanSize }
+
+/-! dereference adaptors: a view whose pixels are read through a function (`add_deref`) -/
+
+/-- a memory-based view together with the function applied on dereferencing (identity for plain views) -/
+structure DView (α β : Type) where
+  v : View
+  deref : α → β
+
+/-- reading pixel (x,y): the dereference function applied to what is stored at its address -/
+def DView.read {α β : Type} (m : Int → α) (d : DView α β) (x y : Int) : β := d.deref (m (d.v.addr x y))
+
+/-- the coordinate transformations rebuild the locator and keep the dereference function -/
+def DView.applyAll {α β : Type} (ts : List Xform) (d : DView α β) : DView α β := { d with v := applyMemAll ts d.v }
+
+/-- `color_converted_view<DstP>(src, cc)` when `DstP` differs from the source's value type: `add_deref`
+    with `color_convert_deref_fn` -- same locator, dereference composed with the converter.
+    (When `DstP` *is* the source's value type `_color_converted_view_type<…,DstP,DstP>::make` returns the
+    source view itself and `cc` is never called: see `colorConvertedSame`.) -/
+def colorConverted {α β γ : Type} (cc : β → γ) (d : DView α β) : DView α γ := { v := d.v, deref := cc ∘ d.deref }
+
+def colorConvertedSame {α β : Type} (_cc : β → β) (d : DView α β) : DView α β := d
 
 /-! ### Spec helpers for the judge -/
 
